@@ -309,6 +309,9 @@ def run_shard(ctx):
         f2, _ = build((0, 0, 0, 1), "literal", "none", "trees")
         f2.entities[col] = "x"
         structural.append((f"unknown-entities-column:{col}", f2))
+    for col in ("bogus_column", "create_iff", "Label ", "updateif", "label::en"):
+        f2, _ = build((0, 0, 0, 1), "literal", "none", "trees")
+        structural.append((f"unknown-entities-column-with-empty-cell:{col}", f2))  # the column is on the sheet, the entity row has nothing in it
     f3, _ = build((0, 0, 0, 1), "literal", "none", "trees")
     f3.extra_sheets = {}
     structural.append(("two-entity-rows", f3))
@@ -320,6 +323,12 @@ def run_shard(ctx):
         if not ctx.mine(n):
             continue
         sheets = form.to_sheets()
+        if name.startswith("unknown-entities-column-with-empty-cell:"):
+            h, rows = sheets["entities"]
+            col = name.split(":", 1)[1]
+            if col.strip().lower() in [str(x).strip().lower() for x in h]:
+                continue
+            sheets["entities"] = (list(h) + [col], [list(r) + [None] for r in rows])
         if name == "two-entity-rows":
             h, rows = sheets["entities"]
             sheets["entities"] = (h, rows + [["second"] + rows[0][1:]])
